@@ -35,17 +35,21 @@ Fixpoint zinsert (z : Z) (l : list Z) : list Z :=
 Definition zsort_dedup (l : list Z) : list Z := fold_right zinsert [] l.
 Fixpoint zindex (z : Z) (l : list Z) : option nat := match l with [] => None | x :: r => if (x =? z)%Z then Some 0 else omap S (zindex z r) end.
 
+(* remove_instance_level_outgoing_references: with the switch off, keep a reference iff its target is a node of the
+   written namespace or its type is HasModellingRule / HasTypeDefinition *)
+Definition use_refs (p : parsed) (w : wparams) (kz : Z) : res (list triple) :=
+  if wp_inc w then Ok (p_refs p)
+  else rbind (reftype_by_name (lit "HasModellingRule") (p_nodes p)) (fun hmr =>
+       rbind (reftype_by_name (lit "HasTypeDefinition") (p_nodes p)) (fun htd =>
+       let in_ns := map nr_nodeid (filter (fun r => Z.eqb (nid_ns (nr_nodeid r)) kz) (p_nodes p)) in
+       Ok (filter (fun t => mem_nid (snd (fst t)) in_ns || nid_eqb (snd t) hmr || nid_eqb (snd t) htd) (p_refs p)))).
 Definition write_doc (p : parsed) (w : wparams) : res doc :=
   match str_index (wp_uri w) (p_namespaces p) with
   | None => Err EValue
   | Some k =>
       let kz := Z.of_nat k in
       (* remove_instance_level_outgoing_references *)
-      rbind (if wp_inc w then Ok (p_refs p)
-             else rbind (reftype_by_name (lit "HasModellingRule") (p_nodes p)) (fun hmr =>
-                  rbind (reftype_by_name (lit "HasTypeDefinition") (p_nodes p)) (fun htd =>
-                  let in_ns := map nr_nodeid (filter (fun r => Z.eqb (nid_ns (nr_nodeid r)) kz) (p_nodes p)) in
-                  Ok (filter (fun t => mem_nid (snd (fst t)) in_ns || nid_eqb (snd t) hmr || nid_eqb (snd t) htd) (p_refs p))))) (fun refs =>
+      rbind (use_refs p w kz) (fun refs =>
       (* the written namespace becomes index 1 *)
       let ns := p_namespaces p in
       let newl := nth 0 ns [] :: nth k ns [] :: map snd (filter (fun ix => negb (Nat.eqb (fst ix) 0) && negb (Nat.eqb (fst ix) k)) (combine (seq 0 (length ns)) ns)) in
